@@ -432,8 +432,97 @@ def explore_node(chk, cases, rng, tag):
                 m.append(DestinationRealmAVP(psmdrv.LREALM))
             m.append(DiameterAVP(code=code, flags=0xC0, vendor_id=10415, data=b"local.example"))
             twins.append(("vendor-twin=%d" % code, m.dump()))
+    # every base-protocol message with each of its AVPs replaced, one at a time, by a generic AVP of the same code that the
+    # dictionary does not own (V bit + Vendor-ID) or by the dictionary's AVP with another legal value; data in and out of the
+    # domain the validators expect. Each is ticked in Open and in the state that waits for that kind of message.
+    from bromelia.avps import DisconnectCauseAVP, ResultCodeAVP, OriginStateIdAVP
+    datas = [None, b"", b"\x00\x00\x00\x07", b"\xff\xff\xff\xff", b"\xff\xfe", b"x" * 300]
+    for bkind in ("cer", "cea", "dwr", "dwa", "dpr", "dpa"):
+        try:
+            base_msgs = DiameterMessage.load(fac.build("%s.ok" % bkind, 5, 6))
+        except BaseException:
+            continue
+        base = base_msgs[0]
+        for i, a in enumerate(base.avps):
+            for dv in datas:
+                for fl, vid in ((0xC0, 10415), (0x80, 0), (0x40, None)):
+                    if vid is None and dv is None:
+                        continue
+                    hdr = DiameterHeader(flags=base.header.flags, command_code=base.header.command_code,
+                                         application_id=base.header.application_id)
+                    m = DiameterMessage(hdr)
+                    try:
+                        for j, b in enumerate(base.avps):
+                            if j != i:
+                                m.append(b)
+                            else:
+                                kw = dict(code=int.from_bytes(a.code, "big"), flags=fl, data=a.data if dv is None else dv)
+                                if vid is not None:
+                                    kw["vendor_id"] = vid
+                                m.append(DiameterAVP(**kw))
+                        twins.append(("base-avp-twin=%s" % bkind, m.dump()))
+                    except BaseException as e:
+                        if isinstance(e, (KeyboardInterrupt, SystemExit)):
+                            raise
+        for extra in (DisconnectCauseAVP(b"\x00\x00\x00\x01"), DisconnectCauseAVP(b"\x00\x00\x00\x02"), ResultCodeAVP((5012).to_bytes(4, "big")),
+                      ResultCodeAVP((3004).to_bytes(4, "big")), OriginStateIdAVP(0)):
+            hdr = DiameterHeader(flags=base.header.flags, command_code=base.header.command_code, application_id=base.header.application_id)
+            m = DiameterMessage(hdr)
+            for b in base.avps:
+                m.append(b)
+            m.append(extra)
+            twins.append(("base-extra-avp=%s" % bkind, m.dump()))
+
+    cnode = psmdrv.Node("client", 1)
+
+    def other_states(kind_name):
+        """bring a node to the state that waits for this kind of message; returns the node or None"""
+        if kind_name == "cer":
+            node.reset()
+            return node                                   # server, Closed
+        if kind_name == "cea":
+            cnode.reset()
+            cnode.tick(); cnode.connect_ack(); cnode.tick()
+            return cnode if type(cnode.psm.current_state).__name__ == "WaitInitiatorCEA" else None
+        if kind_name == "dpa":
+            if not open_node():
+                return None
+            node.local_stop(); node.tick()
+            return node if type(node.psm.current_state).__name__ == "Closing" else None
+        return None
+
     n_ticked = 0
     old_handler = signal.signal(signal.SIGALRM, _alarm)
+    for kind, w in twins:
+        bk = kind.split("=")[1] if kind.startswith("base-") else None
+        if bk not in ("cer", "cea", "dpa") or chk.saturated(40):
+            continue
+        try:
+            msgs = DiameterMessage.load(w)
+        except BaseException as e:
+            if isinstance(e, (KeyboardInterrupt, SystemExit)):
+                raise
+            continue
+        nd = other_states(bk)
+        if nd is None:
+            raise core.HarnessError("could not bring a node to the state awaiting a %s" % bk)
+        nd.inject(msgs[0])
+        signal.setitimer(signal.ITIMER_REAL, 2.0)
+        try:
+            try:
+                exc = nd.tick()
+            finally:
+                signal.setitimer(signal.ITIMER_REAL, 0)
+        except Hang:
+            exc = "Hang (no return within 2 s)"
+        n_ticked += 1
+        inp = {"op": "node-tick-awaiting", "awaiting": bk, "mutation": kind.split("=")[0], "hex": w.hex()[:600]}
+        chk.case(inp, kind="node:%s-awaited:%s" % (kind.split("=")[0], tag))
+        if exc not in (None, "stopped"):
+            chk.violation("a decodable %s made the state machine raise %s in the state awaiting it (its thread would die)" % (bk.upper(), exc),
+                          inp, "no exception", exc)
+        if not nd.lock_free():
+            chk.violation("a decodable message left the association lock held", inp, "lock released", "held")
     for kind, w in list(cases) + twins:
         if chk.saturated(40):
             break
